@@ -143,6 +143,16 @@ class Scheduler(object):
         self._evaluating = True
         try:
             en = [t for t in self.threads if t.enabled()]
+        except SchedAbort:
+            raise
+        except BaseException as e:
+            # a wait predicate of the harness raised: that is a harness error, never a hang
+            import traceback
+            err = HarnessStuck("a wait predicate raised %s: %s\n%s" % (type(e).__name__, e, traceback.format_exc()[-600:]))
+            self.end_status = ("error", err)
+            self.aborted = True
+            self.driver_sem.release()
+            raise SchedAbort()
         finally:
             self._evaluating = False
         if cur is not None and cur in en:
